@@ -10,6 +10,7 @@ use vmodel::ty::Ty;
 use vmodel::val::{shape, Val};
 
 pub mod basic;
+pub mod bigfile;
 pub mod cross;
 pub mod cursor;
 pub mod derive;
@@ -201,6 +202,11 @@ pub fn sample_json(subj: &dyn DynSubject, v: &Val, bytes: Option<&[u8]>, extra: 
         "first_bytes": bytes.map(|b| b.iter().take(48).map(|x| format!("{:02x}", x)).collect::<String>()),
         "env": extra,
     })
+}
+
+/// The value being replayed, if this process replays a saved failure.
+pub fn replay_val() -> Option<Val> {
+    REPLAY_VAL.with(|c| c.borrow().clone())
 }
 
 /// Attach `n` bytes of generated entropy to a value strategy: the case becomes
